@@ -3,10 +3,10 @@ import WhatIs.Base.Info
 import WhatIs.Model.Keys
 /-
   Model/SshWire.lean — `ssh.ParsePublicKey` (golang.org/x/crypto v0.28.0, ssh/keys.go + ssh/messages.go) on a public key
-  blob, for the two key types whose description needs no curve arithmetic: `ssh-rsa` (RFC 4253 §6.6: string, mpint e,
-  mpint n) and `ssh-ed25519` (RFC 8709: string, string key).  `parseString` (uint32 length, that many octets), `parseInt`
+  blob, for the key types whose description needs no curve arithmetic: `ssh-rsa` (RFC 4253 §6.6: string, mpint e,
+  mpint n), `ssh-dss` (string, mpint p, q, g, y) and `ssh-ed25519` (RFC 8709: string, string key).  `parseString` (uint32 length, that many octets), `parseInt`
   (RFC 4251 §5 mpint: two's complement, big-endian), the exponent checks of `parseRSA`, the 32-octet check of
-  `parseED25519`, "trailing junk".  Other algorithms (DSA, ECDSA, sk-*, certificates) are answered `unmodelled`.
+  `parseED25519`, "trailing junk".  Other algorithms (ECDSA, sk-*, certificates) are answered `unmodelled`.
   On top: `sshBlobAttrs` = `sshPublicKeyAttributes` of internal/file/ssh.go for the parsed key.
 -/
 namespace WhatIs.SshWire
@@ -33,6 +33,7 @@ def parseInt (b : Bytes) : Option (Int × Bytes) :=
 
 inductive Key where
   | rsa (e n : Int)
+  | dsa (p q g y : Int)
   | ed25519 (k : Bytes)
   deriving DecidableEq, Repr
 
@@ -44,6 +45,7 @@ inductive Out where
 
 def sshRsa : Bytes := strBytes "ssh-rsa"
 def sshEd25519 : Bytes := strBytes "ssh-ed25519"
+def sshDss : Bytes := strBytes "ssh-dss"
 
 /-- `ssh.ParsePublicKey` -/
 def parsePublicKey (blob : Bytes) : Out :=
@@ -61,6 +63,23 @@ def parsePublicKey (blob : Bytes) : Out :=
           else if e < 3 ∨ e % 2 = 0 then .err               -- "incorrect exponent"
           else if rest ≠ [] then .err                       -- "trailing junk in public key"
           else .ok algo (.rsa e n)
+    else if algo = sshDss then
+      -- `parseDSA`: four mpints; `checkDSAParams`: only 1024-bit p (FIPS 186-2)
+      match parseInt r with
+      | none => .err
+      | some (p, r2) =>
+        match parseInt r2 with
+        | none => .err
+        | some (q, r3) =>
+          match parseInt r3 with
+          | none => .err
+          | some (g, r4) =>
+            match parseInt r4 with
+            | none => .err
+            | some (y, rest) =>
+              if Keys.bitLen p.natAbs ≠ 1024 then .err        -- "unsupported DSA key size"
+              else if rest ≠ [] then .err
+              else .ok algo (.dsa p q g y)
     else if algo = sshEd25519 then
       match parseString r with
       | none => .err
@@ -71,6 +90,7 @@ def parsePublicKey (blob : Bytes) : Out :=
 /-- the public part as the attribute builders see it (`rsa.PublicKey.N.BitLen()` is the bit length of |N|) -/
 def toPub : Key → Keys.Pub
   | .rsa _ n => .rsa n.natAbs
+  | .dsa p _ _ _ => .dsa p.natAbs
   | .ed25519 _ => .ed25519
 
 /-- `sshPublicKeyAttributes(pub, "")` for a blob `ssh.ParsePublicKey` accepts -/
